@@ -49,7 +49,7 @@ P = {
    text="Coq theorems over Serial.v/Civil.v/F64.v (Flocq binary64): civil_bijection on all of Z, every whole serial 0..=2958465 in both "
         "date systems maps to the right midnight (proved semantically, product exact for |d| <= 104249991), as_date/as_time are the "
         "components of as_datetime, duration = serial x 24h, millisecond rounding bound, monotone outside the known class, None beyond "
-        "the calendar, and no Panic for ALL 64-bit patterns. Known classes F16 ([60,61) non-monotone), F34/F35 (serde helpers). "
+        "the calendar, and no Panic for ALL 64-bit patterns. C11_helpers_agree (for every non-error cell the serde helpers deserialize_as_* return the cell's own as_datetime / as_date / as_time / as_duration, 1904 system and duration flavour included) and C11_helper_cell_roundtrip. One known class F16 ([60,61) non-monotone: Excel's fictitious 1900-02-29). "
         "Tie: public ExcelDateTime/DataType API on bit patterns vs the extracted Flocq model.",
    note=TB + " Axioms (via Flocq, named by Print Assumptions): ClassicalDedekindReals.sig_not_dec, sig_forall_dec, "
         "FunctionalExtensionality.functional_extensionality_dep, Classical_Prop.classic. chrono 0.4.45's arithmetic is modelled from its source; ISO-string cells are outside the model.",
@@ -118,7 +118,7 @@ P = {
         "C14_stored_text_positions via from_sparse_spec. FTAB/FTAB_ARGC are regenerated from src/utils.rs on every run "
         "(tools/gen_tables.py) and proved equal to a frozen reference copy (regression pin). Totality: "
         "C14_no_panic_parse_formula_xls/_xlsb (every byte string), C14_no_panic_xlsb_read_names / _xls_read_names, C14_no_panic_a1. "
-        "C14_defined_name_text_is_render_xls (every Lbl formula that encodes a well-formed AST is reported as its rendering). One known class K_PTGEXP (shared / array formula members read as \"\") with refutation. Tie: hooks "
+        "C14_defined_name_text_is_render_xls (every Lbl formula that encodes a well-formed AST is reported as its rendering). C14_shared_formula_members_xls / C14_array_formula_members_xls (FormulaSheet.v: every member of a shared / array group reports the group formula translated to its own position, PtgRefN / PtgAreaN offsets signed and wrapping as the format defines), C14_builtin_names_table (_xlnm.* names), C14_choose_correct_*, C14_user_function_correct_*, C14_sheet_name_quoting. One known class K_PTGEXP restricted to xlsb (members of xlsb shared / array formulas read as \"\") with refutation. Tie: hooks "
         "push_column / both parse_formula / A1 helpers (exhaustive column sweep, random ASTs, malformed rgce with outcome "
         "prediction) and generated .xlsb, .xls, .xlsx and .ods files through worksheet_formula on every sheet and defined_names.",
    note=TB + " f64 display is a Section variable; <> OutOfFuel for the two decoders on arbitrary input is not proved. Table translator: tools/gen_tables.py (fail-closed regex extraction).",
@@ -147,7 +147,10 @@ P = {
         "FORMULA [SHRFMLA|ARRAY|TABLE|any ignored record]* STRING [CONTINUE]* with per-fragment flag bytes, ROW/DBCELL/INDEX/BLANK/"
         "MULBLANK records, both DIMENSIONS widths, cell records in ANY order — the model of the sheet loop of parse_workbook + "
         "from_sparse returns range_of sheet (induction over items with fuel by record count). No known class (StringContinue "
-        "repaired in /repo by 64f46cd). Totality: C02_no_panic_sheet / _sheet_cells / _sheet_at / _records (every byte string at fuel "
+        "repaired in /repo by 64f46cd). C02_xls_whole_file_main (XlsFile.v): the WHOLE FILE — for every logical workbook and every "
+        "legal choice of compound-file layout, globals substream, SST CONTINUE layout, number formats and per-sheet record layout, the "
+        "model of Xls::new + worksheet_range on the file bytes returns the sheets in order, each exactly range_of its cells — by "
+        "composing C13, C16, C12, C10, this property and C05 (only the glue is new: lbPlyPos offsets, the environment the globals yield). Totality: C02_no_panic_sheet / _sheet_cells / _sheet_at / _records (every byte string at fuel "
         "= length + 1: neither Panic nor OutOfFuel), _cell_record, _formula_value, _dimensions, C02_rk_num_panics_iff. Tie: hooks "
         "rk_num / record iterator / cell parsers on extracted encodings, malformed records (outcome prediction) and generated .xls "
         "files (BIFF8 in CFB) through Xls::new + worksheet_range.",
@@ -359,6 +362,6 @@ STALE = set()
 STALE_REASON = ("temporarily not claimed: a shared model file this slice imports (Col26.v / Range.v) was just re-synchronised with the "
                 "hardened code and the slice's bridge lemmas are being re-proved against it; until that is merged the slice's proof "
                 "files do not all compile")
-HOOK_COMMITS = ["6e4993e", "bb5031b", "a67f951", "bdf3a94"]
+HOOK_COMMITS = ["6e4993e", "bb5031b", "a67f951", "bdf3a94", "d6d3370"]
 if __name__ == "__main__":
     main()
